@@ -445,6 +445,9 @@ class Gen:
                 cl.raw = True
                 if src != cl.src:
                     cl.ip ^= 0x200
+                if self.rng.random() < 0.5:
+                    # the real client sends its raw login up to four times when the answer is late: the same valid datagram again
+                    self.h.send("dns %s %s" % (cl.src, vlib.hx(cl.c.raw_login(**kw))), {"client": cl, "kind": "rawlogin", "good": not kw, "src": cl.src, "repeat": True})
         elif r < 0.6:
             self.h.send("dns %s %s" % (cl.src, vlib.hx(cl.c.raw_frame(0x30))), {"client": cl, "kind": "rawping"})
         elif r < 0.8:
